@@ -4,7 +4,8 @@
 
   FULL STATEMENT: for every fuel and every prefix of the run, the costs of the yielded programs are
   non-decreasing (PROVED: C03_Beap_order, positive rule costs) and every derivable program strictly cheaper
-  than a yielded one was yielded before it (prefix completeness: NOT proved, compared on every case).
+  than a yielded one was yielded before it (prefix completeness: PROVED, C03_Beap_prefix_complete, positive rule
+  costs, finite and recursive grammars, any filter — "derivable" then reads "all sub-programs accepted").
 
   Proved here (every grammar with distinct dict keys, every cost table, every fuel):
   THE MINIMAL COSTS (beap_search.py:79-119, the part of the enumerator the order rests on):
@@ -65,8 +66,14 @@
         of the programs produced by `take k` from the fresh generator are pairwise non-decreasing in the
         order of production (every prefix of the run, finite or recursive grammar), and every yielded
         program is derivable.
-  Compared on every generated case, not proved: prefix completeness and the sortedness of the cost
-  lists (exact Fraction cost of every yielded program, brute-force expansion below a cost bound).
+  PREFIX COMPLETENESS (round 2):
+    * C03_Beap_prefix_complete — for every fuel and every k: when a program of cost y is among the programs produced
+        by `take k`, every program of the start symbol of strictly smaller cost all of whose sub-programs are accepted
+        by the filter is among them (C03_Beap_prefix_complete_nofilter: every priced derivation).  Proof:
+        PS/Proofs/Enum/BeapCompl*.lean (completed region CR, frontier FR with the producer chain BelowArgs, frame
+        invariant FrK, protection Keep4; mutual induction `compl_all`).
+  Not proved: termination of one `next` call.  Still compared on every generated case: exact Fraction cost of
+  every yielded program, brute-force expansion below a cost bound.
 -/
 import PS.Proofs.Enum.BeapHeadMin
 import PS.Proofs.Enum.BeapOrderRun
